@@ -155,3 +155,28 @@ Definition computed_admits (src dst : ty) : bool :=
    ArrayElement and TupleElement (through _index_tuple) all test
    not (output.type_spec() != produced_type_spec)   (type.py, array_base.py, tuple.py) *)
 Definition store_into_admits (src dst : ty) : bool := py_eq dst src.
+
+(* ---- type_spec_from_algosdk (util.py:416-490) and the MethodCall parameter gate ------------------
+   A method signature is parsed by algosdk; type_spec_from_algosdk maps the parsed type to the PyTeal spec
+   of the same ARC-4 type: uint8/16/32/64, byte, bool, string, address, T[N], T[], plain tuples, the
+   reference and transaction strings.  Every other uint width (and ufixed, which [ty] cannot express)
+   is REFUSED with TealInputError("Invalid Type ...").  The argument [t] is the ARC-4 type as a plain
+   term (no named tuples / StaticBytes / DynamicBytes: algosdk has no such types). *)
+Fixpoint sdk_supported (t : ty) : bool :=
+  match t with
+  | TUint n => pyteal_uint_bits n
+  | TStaticArray e _ | TDynArray e => sdk_supported e
+  | TTuple None ts => forallb sdk_supported ts
+  | TTuple (Some _) _ | TStaticBytes _ | TDynBytes => false
+  | _ => true
+  end.
+
+Definition from_algosdk (t : ty) : option ty := if sdk_supported t then Some t else None.
+
+(* InnerTxnBuilder.MethodCall: an ABI argument of spec [arg] for a parameter written [param] in the
+   method signature is accepted iff the signature is readable and arg is assignable to the read spec *)
+Definition method_arg_admits (arg param : ty) : bool :=
+  match from_algosdk param with
+  | Some p => assignable arg p
+  | None => false
+  end.
